@@ -204,7 +204,18 @@ def run_C14(tier):
             J.append(Job('c-binsem', 'starve', '%s|L%d|L%d' % (v, k, k), 2, 0, (), defs, 'c-binsem.t%d' % T))
         if not q:
             J.append(Job('c-futex', 'starve', 'V|L%d|L%d|L%d' % (k, k, k), 1, 0, (), defs, 'c-futex.t%d' % T))
-    return generic('C14', tier, dedupe(J), 'DFS over schedules of a victim locker and 2-3 barging threads with LONG_WAIT_THRESHOLD reduced to 1..3 by the guarded hook; oracle at nsync\'s own acquisition events: once the victim\'s (T+1)-th sleep has begun no call that never slept acquires before the victim', sample_every=5)
+    # the real threshold (30): adversarial strategies scripted as the zero-deviation schedule, plus every
+    # single (thorough: for one program every double) deviation from them
+    for v in 'wr':
+        for b in 'LRT':
+            if v == 'r' and b == 'R': continue
+            for st in ('fixed', 'alt', 'fresh'):
+                p = '%s%s:%s' % (v, b, st)
+                for cfg in ('c-futex', 'c-binsem'):
+                    J.append(Job(cfg, 'adversary', p, 1, 0, ('--strict',)))
+    if not q:
+        J.append(Job('c-futex', 'adversary', 'wL:alt', 2, 0, ('--strict',)))
+    return generic('C14', tier, dedupe(J), 'DFS over schedules of a victim locker and 2-3 barging threads with LONG_WAIT_THRESHOLD reduced to 1..3 by the guarded hook; oracle at nsync\'s own acquisition events: once the victim\'s (T+1)-th sleep has begun no call that never slept acquires before the victim; at the real threshold 30: 15 adversarial strategies (fixed / alternating / fresh barger x victim and barger kinds) scripted as the default schedule and explored with all single deviations', sample_every=5)
 
 def run_C16(tier):
     q = tier == 'quick'
